@@ -22,6 +22,9 @@ func (c *fnCtx) execInstr(st *State, in ssa.Instruction) {
 	case *ssa.Alloc:
 		r := c.allocRef(st)
 		c.set(in, mkRef(r, in.Type()))
+		if tg := c.refTag(in.Type()); tg != "" {
+			c.assume(st, app("=", app("rtype", c.vals[in].S), tg))
+		}
 		// zero-initialise
 		pt := in.Type().Underlying().(*types.Pointer).Elem()
 		locs := c.leafLocs(c.vals[in].S, pt)
@@ -93,6 +96,23 @@ func (c *fnCtx) execInstr(st *State, in ssa.Instruction) {
 		c.execCall(st, in, &in.Call, in)
 		c.sealBounds(st)
 	case *ssa.Defer:
+		if c.inLoop(in.Block()) {
+			// A defer inside a loop registers one call per iteration. Its ghost effect
+			// (releasing an iterator) is applied at registration: the call is certain to run
+			// at every exit, and exits are where the balance is checked. Heap effects are
+			// applied once at exit (they only havoc).
+			if gm := c.callGhostMods(&in.Call); len(gm) > 0 {
+				tmp := st.clone()
+				c.execCall(tmp, in, &in.Call, nil)
+				for _, gk := range gm {
+					st.ghost[gk] = tmp.ghost[gk]
+				}
+				st.cur = tmp.cur // keeps the facts relating the new ghost values
+				st.defers = append(st.defers, deferred{flag: "true", call: in, prepaid: true})
+				return
+			}
+			c.note("defer inside a loop at %s: modelled as running once", c.posStr(in.Pos()))
+		}
 		st.defers = append(st.defers, deferred{flag: "true", call: in})
 	case *ssa.RunDefers:
 		c.runDefers(st, in.Pos())
